@@ -193,6 +193,27 @@ impl OptCfg {
     }
 }
 
+struct NullSink;
+impl ScriptSink for NullSink {
+    fn on_score(&mut self, _call: u64, _v: &[f64], _score: Option<f64>, _label: char) {}
+}
+
+/// `optimise_state(&self, ..)` takes the optimiser by reference: the same optimiser may have
+/// run before (the CLI runs one per stage over every replica).  With a builder history whose
+/// number is a multiple of three, the optimiser first runs on an unrelated state.
+fn used_before(cfg: &OptCfg, opt: &packing::MCOptimiser) {
+    match cfg.builder_history {
+        Some(h) if h % 3 == 0 && cfg.steps <= 20_000 => {
+            let sink: Arc<Mutex<dyn ScriptSink>> = Arc::new(Mutex::new(NullSink));
+            let decoy = Scripted::new(&[0.3, -0.2], &[(-1., 1.), (-1., 1.)], Script::Bowl { centre: vec![0.1, 0.1], wall: Some(0.9) }, sink);
+            let _ = catch_unwind(AssertUnwindSafe(|| {
+                let _ = opt.optimise_state(decoy);
+            }));
+        }
+        _ => {}
+    }
+}
+
 pub struct RunReport {
     pub monitor: TraceMonitor,
     /// label of each score() call of a scripted run (I initial, B E W N A P S L)
@@ -255,7 +276,9 @@ pub fn run_scripted(c: &ScriptedCase, keep_log: bool) -> RunReport {
     let res = match builder {
         Err(e) => Err(format!("configuration rejected by the argument parser: {}", e)),
         Ok(b) => catch_unwind(AssertUnwindSafe(|| {
-            let out = b.build().optimise_state(state);
+            let opt = b.build();
+            used_before(&c.cfg, &opt);
+            let out = opt.optimise_state(state);
             params_of(&out)
         }))
         .map_err(panic_message),
@@ -319,7 +342,9 @@ pub fn run_real<S: State + 'static>(state: S, cfg: &OptCfg, declared: Option<Vec
     let res = match builder {
         Err(e) => Err(format!("configuration rejected by the argument parser: {}", e)),
         Ok(b) => catch_unwind(AssertUnwindSafe(|| {
-            let out = b.build().optimise_state(spy);
+            let opt = b.build();
+            used_before(cfg, &opt);
+            let out = opt.optimise_state(spy);
             let v = params_of(&out);
             // NB: Serialize first; score() on the result would add one more observed call
             let js = serde_json::to_value(&out).ok();
@@ -630,7 +655,9 @@ pub fn run_probe(c: &ScriptedCase, with_monitor: bool) -> ProbeReport {
     let res = match builder {
         Err(e) => Err(format!("configuration rejected by the argument parser: {}", e)),
         Ok(b) => catch_unwind(AssertUnwindSafe(|| {
-            let out = b.build().optimise_state(state);
+            let opt = b.build();
+            used_before(&c.cfg, &opt);
+            let out = opt.optimise_state(state);
             params_of(&out)
         }))
         .map_err(panic_message),
